@@ -839,6 +839,73 @@ func c10EarlyProp(t *testing.T, r *hx.Run, sub string) func(c c10Early) hx.Verdi
 	}
 }
 
+// ---- two overlapping Close calls
+
+// A session is Established; closing the listener takes a while (SpinUs). A second Close is
+// called AfterUs into the first: whichever call returns, every OnEstablished has its OnClose
+// by then and the connection is closed.
+type c10Twice struct {
+	Out     bool  `json:"out"`
+	SpinUs  int64 `json:"spin_us"`
+	AfterUs int64 `json:"after_us"`
+}
+
+func c10TwiceProp(t *testing.T, r *hx.Run, sub string) func(c c10Twice) hx.Verdict {
+	return func(c c10Twice) hx.Verdict {
+		r.SetCurrent(sub, c)
+		v := hx.Verdict{Class: fmt.Sprintf("out=%v", c.Out)}
+		v.NT = fmt.Sprintf("%+v", c)
+		p := world.PeerSpec{Remote: "10.0.0.2", LocalAS: 64512, RemoteAS: 64513, Passive: !c.Out, Hold: 90, IdleHoldMs: 5000, ConnRetryMs: 5000}
+		var dev *hx.Dev
+		fail := func(key, f string, a ...any) {
+			if dev == nil {
+				dev = hx.Devf(key, f, a...)
+			}
+		}
+		o, serr := world.Single(t, "10.0.0.1", p, c.Out, nil, func(w *world.World, conn *memnet.Conn) {
+			world.Handshake(w, p, conn, 90, 0x0a000002)
+			if w.Sessions(p.Remote) != 1 {
+				fail("setup", "session did not establish")
+				return
+			}
+			w.Lis.SetCloseSpin(c.SpinUs)
+			first := w.Go("Close#1", "", w.Srv.Close)
+			memnet.Spin(c.AfterUs)
+			ok, took := w.Call("Close#2", "", 5*time.Second, w.Srv.Close)
+			if !ok {
+				fail("stop-blocked", "the second Close did not return within %v", took)
+				return
+			}
+			nEst, nClose := 0, 0
+			for _, e := range w.Rec.Events() {
+				switch e.K {
+				case "est+":
+					nEst++
+				case "close-":
+					nClose++
+				}
+			}
+			closed := conn.Snapshot().LocalClosed
+			<-first
+			if nClose != nEst {
+				fail("onclose-missing", "the second of two overlapping Close calls returned with %d OnEstablished and %d finished OnClose", nEst, nClose)
+				return
+			}
+			if !closed {
+				fail("connection-left-open", "the second of two overlapping Close calls returned while the session's connection was still open")
+			}
+		})
+		if serr != nil {
+			fail("setup", "%v", serr)
+		}
+		if b := o.Bad(); b != "" {
+			fail("wedge", "%s", b)
+		}
+		v.Dev = dev
+		return v
+	}
+}
+
 func genC10(rt *rapid.T) c10Case {
 	c := c10Case{API: pick(rt, "api", "close", "close", "del", "del", "del-add", "liserr")}
 	c.Listeners = pick(rt, "listeners", 0, 0, 1, 2)
@@ -945,6 +1012,18 @@ func TestC10(t *testing.T) {
 			}
 		}
 	}, c10Prop(t, r, "stop_when_dial_is_due"))
+
+	hx.Enum(r, t, "two_closes", 0, func(yield func(c10Twice) bool) {
+		for _, out := range []bool{false, true} {
+			for _, spin := range []int64{200, 600} {
+				for _, after := range []int64{0, 10, 40, 100, 150, 300} {
+					if !yield(c10Twice{Out: out, SpinUs: spin, AfterUs: after}) {
+						return
+					}
+				}
+			}
+		}
+	}, c10TwiceProp(t, r, "two_closes"))
 
 	hx.Enum(r, t, "close_before_serve", 0, func(yield func(c10Early) bool) {
 		for rep := 0; rep < 6; rep++ {
